@@ -49,9 +49,9 @@ CHECKS = {
  'C15': dict(tech='TLA+ transcription of the padding / block-count rules of the hash gadgets (HashFraming.tla) with TLC checking that the replayed length classes cover every framing boundary; enumerated framing cases replayed on the real gadgets against the native implementations',
              text='TLC checks BoundaryCover and BlocksMinimal for SHA-256, RIPEMD-160, SHA3-256/384/512, Keccak-256/512 and enumerates family x boundary length x 7 write chunkings, variable-length sums (length x declared maximum x minimal-length option), MiMC / Poseidon2 by element count, chunking and state export/import point, Merkle proofs by tree size and leaf, Fiat-Shamir transcripts; each case must reproduce the native digest on the real gadget (test engine; a sample through both builders and solvers) and reject a wrong digest, the digest of a shorter prefix, a wrong leaf index or an altered sibling.',
              note='Message contents are seeded pseudo-random bytes; lengths up to two blocks + 1.', ref='6 C15 / 11.2'),
- 'C16': dict(tech='TLA+ model of the group law on point names with each method\'s documented domain (CurveOps.tla) checked and enumerated by TLC; in-domain cases replayed on the real curve gadgets against native scalar multiplication',
-             text='Points are named by discrete logarithm (infinity, P=Q, P=-Q arise as names), scalars by 0..3, r-1, r, r+1; TLC checks the domain rules of Add / AddUnified / Double / Neg / ScalarMul / ScalarMulBase / JointScalarMulBase / MultiScalarMul with and without complete arithmetic for consistency and enumerates 444 cases; every in-domain case runs on sw_emulated (secp256k1, BN254, BLS12-381, BW6-761, P-256, P-384) and on the native twisted Edwards curve and must equal the native [k]G, [k+1]G must be rejected; hang-prone cases run one per process under a timeout.',
-             note='Curve arithmetic only: pairing gadgets, ECDSA / EdDSA and the EVM precompile wrappers, and dishonest GLV / fake-GLV hint outputs are not covered.', ref='6 C16 / 11.2'),
+ 'C16': dict(tech='TLA+ models checked / enumerated by TLC - CurveOps.tla (group law on point names with each method\'s documented domain), ToySig.tla (ECDSA and EdDSA written out over toy groups, every key x nonce x message, deciding per edit class which signatures must verify), FakeGLV.tla (what the checks of a hinted scalar multiplication bind when the prover chooses the hints) - with every case / class / winning strategy replayed on the real gadgets against the native libraries and through the real Groth16 prover',
+             text='Points are named by discrete logarithm (infinity, P=Q, P=-Q arise as names), scalars by 0..3, r-1, r, r+1; TLC checks the domain rules of Add / AddUnified / Double / Neg / ScalarMul / ScalarMulBase / JointScalarMulBase / MultiScalarMul with and without complete arithmetic for consistency and enumerates 444 cases; every in-domain case runs on sw_emulated (secp256k1, BN254, BLS12-381, BW6-761, P-256, P-384) and on the native twisted Edwards curve and must equal the native [k]G, [k+1]G must be rejected; hang-prone cases run one per process under a timeout. ToySig.tla: 19 edit classes of a genuine signature (s -> n-s, zero / incremented / swapped / non-canonical components, other message, other key) with TLC-proved verdicts, replayed on std/signature/ecdsa (secp256k1, P-256, P-384) and std/signature/eddsa (four companion curves) and on gnark-crypto / crypto/ecdsa. FakeGLV.tla: three designs of the decomposition check, TLC finds the winning prover strategies of the unsound ones; they are run against ScalarMul of the native twisted Edwards gadget and of sw_emulated with complete arithmetic by overriding the hints in a real Groth16 Prove / Verify.',
+             note='Pairing gadgets and the EVM precompile wrappers are not covered; F19, F19b, F20, F24, F25 open, F23 fixed.', ref='6 C16 / 11.2'),
  'C17': dict(tech='TLA+ decision models of the inner verifiers (Groth16Protocol.tla, PlonkProtocol.tla: the C01 / C02 behaviours) composed with a TLA+ model of the outer configurations (Recursion.tla: key as witness / constant / selected among candidates, batches, arithmetic option) checked by TLC; every (behaviour, configuration) judged by the native verifier with the recursion options and replayed on the in-circuit verifiers of std/recursion/groth16 and std/recursion/plonk',
              text='TLC enumerates inner circuit shape x edit sequences (element replacement classes incl. other-proof, negation, infinity, torsion, off-subgroup; claimed values; public inputs; other keys; tampered assignments; padding) for Groth16 (0-1 commitment) and PLONK (0-2 commitments), and Recursion.tla enumerates 42 outer configurations (witness-supplied key, constant key, SwitchVerificationKey / AssertDifferentProofs with 1-2 candidate keys and a selector that designates the own key, another key or no key, AssertSameProofs batches, complete / incomplete arithmetic) with the invariant "accept only against the selected key". Each pair is verified natively over BLS12-377 with the recursion options and assigned to the in-circuit verifier over BW6-761; the outer circuit must be satisfiable (test engine) exactly when the native verifier accepts the triple against the selected key.',
              note='Two-chain BLS12-377 in BW6-761 only; emulated pairings not covered; the outer circuit is evaluated by the test engine, not proven; F22 (PLONK gadget has no subgroup check) open.', ref='6 C17 / 11.2'),
